@@ -683,7 +683,7 @@ func c02SeqLockset(c *Ctx, a *attackAnchors) *seqFacts {
 		sf.mu = m
 	}
 	// mutex belongs to the same attack object as seq
-	if sf.mu != "atk.seqmu" {
+	{
 		// the receiver path must be <x>.seqmu where accesses are <x>.seq
 		base := sf.mu[:len(sf.mu)-len(".seqmu")]
 		for _, fa := range accs {
